@@ -795,8 +795,17 @@ func (i *InvoiceRegistry) processKeySend(ctx invoiceUpdateCtx) error {
 	finalCltvDelta := i.cfg.FinalCltvRejectDelta
 
 	// Pre-check expiry here to prevent inserting an invoice that will not
-	// be settled.
+	// be settled. If the invoice already exists nothing is inserted: the
+	// htlc is either a replay, which must be resolved exactly as before, or
+	// a new htlc whose expiry is checked by the regular update path.
 	if ctx.expiry < uint32(ctx.currentHeight+finalCltvDelta) {
+		_, err := i.idb.LookupInvoice(
+			context.Background(), ctx.invoiceRef(),
+		)
+		if err == nil {
+			return nil
+		}
+
 		return errors.New("final expiry too soon")
 	}
 
@@ -862,8 +871,17 @@ func (i *InvoiceRegistry) processAMP(ctx invoiceUpdateCtx) error {
 	finalCltvDelta := i.cfg.FinalCltvRejectDelta
 
 	// Pre-check expiry here to prevent inserting an invoice that will not
-	// be settled.
+	// be settled. If the invoice already exists nothing is inserted: the
+	// htlc is either a replay, which must be resolved exactly as before, or
+	// a new htlc whose expiry is checked by the regular update path.
 	if ctx.expiry < uint32(ctx.currentHeight+finalCltvDelta) {
+		_, err := i.idb.LookupInvoice(
+			context.Background(), ctx.invoiceRef(),
+		)
+		if err == nil {
+			return nil
+		}
+
 		return errors.New("final expiry too soon")
 	}
 
